@@ -12,6 +12,7 @@ import (
 	"sync"
 	"time"
 
+	"github.com/cloudflare/circl/ecc/bls12381"
 	"github.com/cloudflare/circl/sign"
 	"github.com/cloudflare/circl/sign/bls"
 	"github.com/cloudflare/circl/sign/ed25519"
@@ -45,15 +46,15 @@ type line struct {
 // are possible.
 type keyed struct {
 	pk     []byte
-	sign   func(msg []byte, ctx []byte) ([]byte, bool)           // false: refused (error / panic)
+	sign   func(msg []byte, ctx []byte) ([]byte, bool)            // false: refused (error / panic)
 	verify func(pk, msg, ctx, sig []byte) (ok bool, refused bool) // refused: key did not parse
-	other  map[string]func(pk, msg, ctx, sig []byte) bool        // verification under sibling variants ("mode" site)
+	other  map[string]func(pk, msg, ctx, sig []byte) bool         // verification under sibling variants ("mode" site)
 }
 
 type variant struct {
 	name    string
 	sigSize int
-	sOff    int      // offset of the scalar S (if any)
+	sOff    int // offset of the scalar S (if any)
 	sLen    int
 	order   *big.Int // group order L for S+L
 	split   int      // hybrids: length of the first component
@@ -128,7 +129,9 @@ func variants() []variant {
 					p, _ := safe(func() { sig = sg(k, msg, string(ctx)) })
 					return sig, !p
 				},
-				verify: func(pk, msg, ctx, sig []byte) (bool, bool) { return vf(ed25519.PublicKey(pk), msg, sig, string(ctx)), false },
+				verify: func(pk, msg, ctx, sig []byte) (bool, bool) {
+					return vf(ed25519.PublicKey(pk), msg, sig, string(ctx)), false
+				},
 				other: map[string]func(pk, msg, ctx, sig []byte) bool{
 					"pure": mk(func(p ed25519.PublicKey, m, s []byte, c string) bool { return ed25519.Verify(p, m, s) }),
 					"ctx":  mk(ed25519.VerifyWithCtx), "ph": mk(ed25519.VerifyPh),
@@ -153,7 +156,9 @@ func variants() []variant {
 					p, _ := safe(func() { sig = sg(k, msg, string(ctx)) })
 					return sig, !p
 				},
-				verify: func(pk, msg, ctx, sig []byte) (bool, bool) { return vf(ed448.PublicKey(pk), msg, sig, string(ctx)), false },
+				verify: func(pk, msg, ctx, sig []byte) (bool, bool) {
+					return vf(ed448.PublicKey(pk), msg, sig, string(ctx)), false
+				},
 				other: map[string]func(pk, msg, ctx, sig []byte) bool{
 					"pure": func(pk, msg, ctx, sig []byte) bool { return ed448.Verify(ed448.PublicKey(pk), msg, sig, string(ctx)) },
 					"ph":   func(pk, msg, ctx, sig []byte) bool { return ed448.VerifyPh(ed448.PublicKey(pk), msg, sig, string(ctx)) }}}
@@ -529,7 +534,7 @@ func main() {
 func blsAggregate(seed int64, emit func(line)) {
 	run := func(name string, f func(kind string, n int, rng interface{ Intn(int) int }) (acc bool, panicked bool)) {
 		rng := vlib.Rng(seed, "blsagg"+name)
-		for _, kind := range []string{"permuted", "duplicated", "missing", "other-msg", "identity-sig", "sig-append", "identity-pk", "identity-pk-single"} {
+		for _, kind := range []string{"permuted", "duplicated", "missing", "other-msg", "identity-sig", "sig-append", "identity-pk", "identity-pk-single", "rogue-key"} {
 			ln := line{Ev: "blsagg", Variant: name, Site: kind, SizeOK: true, Det: true}
 			for n := 2; n <= 4; n++ {
 				for rep := 0; rep < 2; rep++ {
@@ -545,8 +550,12 @@ func blsAggregate(seed int64, emit func(line)) {
 			emit(ln)
 		}
 	}
-	run("bls.G1", func(kind string, n int, rng interface{ Intn(int) int }) (bool, bool) { return aggCase[bls.G1](kind, n, rng) })
-	run("bls.G2", func(kind string, n int, rng interface{ Intn(int) int }) (bool, bool) { return aggCase[bls.G2](kind, n, rng) })
+	run("bls.G1", func(kind string, n int, rng interface{ Intn(int) int }) (bool, bool) {
+		return aggCase[bls.G1](kind, n, rng)
+	})
+	run("bls.G2", func(kind string, n int, rng interface{ Intn(int) int }) (bool, bool) {
+		return aggCase[bls.G2](kind, n, rng)
+	})
 }
 
 func aggCase[K bls.KeyGroup](kind string, n int, rng interface{ Intn(int) int }) (acc bool, panicked bool) {
@@ -585,6 +594,40 @@ func aggCase[K bls.KeyGroup](kind string, n int, rng interface{ Intn(int) int })
 		agg[0] = 0xc0
 	case "sig-append":
 		agg = append(append([]byte{}, agg...), 1, 2)
+	case "rogue-key":
+		// the attacker knows x, publishes x*G - pk_victim (computed from public bytes only) and signs m with x: the aggregate over {m, m}
+		// implicates the victim, who never signed m
+		ikm := make([]byte, 32)
+		for j := range ikm {
+			ikm[j] = byte(rng.Intn(256))
+		}
+		att, _ := bls.KeyGen[K](ikm, nil, nil)
+		vb, _ := pubs[0].MarshalBinary()
+		ab, _ := att.PublicKey().MarshalBinary()
+		var rb []byte
+		if len(vb) == bls12381.G1SizeCompressed {
+			var V, A bls12381.G1
+			if V.SetBytes(vb) != nil || A.SetBytes(ab) != nil {
+				return false, true
+			}
+			V.Neg()
+			A.Add(&A, &V)
+			rb = A.BytesCompressed()
+		} else {
+			var V, A bls12381.G2
+			if V.SetBytes(vb) != nil || A.SetBytes(ab) != nil {
+				return false, true
+			}
+			V.Neg()
+			A.Add(&A, &V)
+			rb = A.BytesCompressed()
+		}
+		rogue := new(bls.PublicKey[K])
+		if rogue.UnmarshalBinary(rb) != nil || !rogue.Validate() {
+			return false, true
+		}
+		m := []byte("the victim never signed this")
+		pubs, msgs, agg = []*bls.PublicKey[K]{pubs[0], rogue}, [][]byte{m, m}, bls.Sign(att, m)
 	case "identity-pk", "identity-pk-single":
 		// a public key decoded from the encoding of the point at infinity must be refused, whatever the signature
 		pkb, _ := pubs[0].MarshalBinary()
